@@ -52,4 +52,7 @@ def run(rep, fb, tier):
     _pr6.rule_py_numfields_sentinel(rep)
     _pb6.rule_py_record_methods(rep)
     _pr6.rule_py_record_field_trim(rep)
+    __import__("vf.rules.pyrules3", fromlist=["x"]).rule_py_unused_local(rep)
+    __import__("vf.rules.pyrules3", fromlist=["x"]).rule_py_duplicate_operand(rep)
+    __import__("vf.rules.pyrules", fromlist=["x"]).rule_py_dead_attr(rep)
     rep.units = fb.units
